@@ -58,6 +58,8 @@ class Mixed:
         self.files = set()
         self.nout = 0
         self.seen = []           # (section, key) pairs some file of this history defines: the getters ask for them and for near misses
+        self.seen_by = {}        # ... per file;  src[h]: the files (or setter pairs) object h stems from
+        self.src = {}
 
     def add(self, line, conv):
         self.script.append(line)
@@ -74,6 +76,7 @@ class Mixed:
         f = self.r.choice(FILES + (FILES_CFG if self.ops is None or "readconfig" in self.ops else []))
         g = gram.random_file(self.r, self.r.randint(1, 8), self.optmode, self.bad_rate, D="=", C="#")
         self.files.add(f)
+        self.seen_by[f] = []
         # framing (Parser.tla FileBytes): the final newline is optional and means nothing
         fnl = not (g["lines"] and g["lines"][-1] and self.r.random() < 0.25)
         self.add("file %s %s" % (hx(self.R + f), hx(file_bytes(g["lines"], fnl))), None)
@@ -82,16 +85,19 @@ class Mixed:
         for a in g["abs"]:
             if a["t"] == "header":
                 cur = core.uncodes(a["key"])
-            elif a["t"] in ("entry", "keyonly") and len(self.seen) < 40:
-                self.seen.append((cur, core.uncodes(a["key"])))
+            elif a["t"] in ("entry", "keyonly"):
+                if len(self.seen) < 40:
+                    self.seen.append((cur, core.uncodes(a["key"])))
+                self.seen_by.setdefault(f, []).append((cur, core.uncodes(a["key"])))
         self.script.append("echo f")
         self.conv.append(lambda ev, root, f=f, lines=lines: [{"e": "file", "path": codes(f), "lines": lines}])
 
     def op_read(self, h):
-        f = self.r.choice(sorted(self.files) + ["/missing.conf"]) if self.files else "/missing.conf"
+        f = (self.r.choice(sorted(self.files)) if self.r.random() < 0.9 else "/missing.conf") if self.files else "/missing.conf"
         self.add("readfile %d %s x3d x23" % (h, hx(self.R + f)),
                  lambda ev, root, h=h, f=f: [{"e": "readfile", "h": h, "path": codes(f), "delim": [61], "comment": [35], "rc": ev["rc"]}])
         self.live.add(h)
+        self.src[h] = [f]
         self.errloc()
 
     def op_readdirs(self, h):
@@ -99,6 +105,7 @@ class Mixed:
                  lambda ev, root, h=h: [{"e": "readdirs", "h": h, "dirs": [codes("/usr/etc"), codes("/etc")], "name": codes("cfg"), "sfx": codes("conf"),
                                          "delim": [61], "comment": [35], "python": False, "join": False, "rc": ev["rc"]}])
         self.live.add(h)
+        self.src[h] = [f for f in sorted(self.files) if f.startswith("/usr/etc/cfg") or f.startswith("/etc/cfg")]
         self.errloc()
 
     def op_readconfig_opt(self, h):
@@ -173,12 +180,13 @@ class Mixed:
         posts = self.r.choice([[], [".conf.d", "/alt.d"], [".d"], [".conf.d"], ["/alt.d", ".d", ".conf.d"]])
         self.add("setconfdirs " + " ".join(hx(x) for x in posts), lambda ev, root, posts=posts: [{"e": "setconfdirs", "dirs": [codes(x) for x in posts]}])
 
-    def pick_gk(self, keys):
+    def pick_gk(self, keys, h=None):
         """the (section, key) a getter asks for: a random pair of the small name pools, or - half of the time when files were
         generated - a pair that a file of this history defines, with the section name as it is, in the bracketed form, or a near
         miss of it (a proper prefix, an extension, the bracketed prefix): only the exact name (bare or bracketed) may find the key"""
-        if self.seen and self.r.random() < 0.5:
-            g, k = self.r.choice(self.seen)
+        own = [p for f in self.src.get(h, ()) for p in (self.seen_by.get(f, ()) if isinstance(f, str) else [f])]
+        if (own and self.r.random() < 0.65) or (self.seen and self.r.random() < 0.3):
+            g, k = self.r.choice(own) if own and self.r.random() < 0.85 else self.r.choice(self.seen or own)
             x = self.r.random()
             if g and "[" not in g and "]" not in g:
                 if x < 0.35:
@@ -195,7 +203,7 @@ class Mixed:
         return self.r.choice(SECS), self.r.choice(keys)
 
     def op_keys(self, h):
-        g = self.pick_gk(KEYS)[0]
+        g = self.pick_gk(KEYS, h)[0]
         self.add("keys %d %s" % (h, hx(g)), lambda ev, root, h=h, g=g: [{"e": "keys", "h": h, "g": opt(g), "rc": ev["rc"], "out": [codes(x) for x in (ev.get("out") or [])]}])
 
     def op_groups(self, h):
@@ -215,7 +223,7 @@ class Mixed:
                  lambda ev, root, h=h, g=g, k=k, n=n, T=T: [{"e": "set", "T": T, "h": h, "g": opt(g), "k": opt(k), "v": [], "neg": n < 0, "mag": [int(c) for c in str(abs(n))], "rc": ev["rc"]}])
 
     def op_gettyped(self, h):
-        g, k = self.pick_gk(KEYS)
+        g, k = self.pick_gk(KEYS, h)
         T = self.r.choice(sorted(INTTYPES) + ["Bool"])
 
         def conv(ev, root, h=h, g=g, k=k, T=T):
@@ -231,7 +239,7 @@ class Mixed:
         self.add("get %s %d %s %s" % (T, h, hx(g), hx(k)), conv)
 
     def op_ext(self, h):
-        g, k = self.pick_gk(KEYS + ["a", "b", "k0", "k1"])
+        g, k = self.pick_gk(KEYS + ["a", "b", "k0", "k1"], h)
         self.add("ext %d %s %s" % (h, hx(g), hx(k)),
                  lambda ev, root, h=h, g=g, k=k: [{"e": "ext", "h": h, "g": opt(g), "k": opt(k), "rc": ev["rc"], "line": ev.get("line", 0),
                                                   "file": codes(self.rel(ev.get("file") or "", root)), "cb": codes(ev.get("cb") or ""), "ca": codes(ev.get("ca") or ""),
@@ -250,20 +258,23 @@ class Mixed:
     def op_new(self, h):
         self.add("newkf %d x3d x23" % h, lambda ev, root, h=h: [{"e": "new", "h": h, "d": 61, "c": 35, "rc": ev["rc"]}])
         self.live.add(h)
+        self.src[h] = []
 
     def op_set(self, h):
         g, k, v = self.r.choice(SECS), self.r.choice(KEYS), self.r.choice(VALS)
+        self.src.setdefault(h, []).append((g.strip("[]") if g else None, k))
         self.add("set String %d %s %s %s" % (h, hx(g), hx(k), hx(v)),
                  lambda ev, root, h=h, g=g, k=k, v=v: [{"e": "set", "h": h, "g": opt(g), "k": opt(k), "v": opt(v), "rc": ev["rc"]}])
 
     def op_get(self, h):
-        g, k = self.pick_gk(KEYS + ["a", "b"])
+        g, k = self.pick_gk(KEYS + ["a", "b"], h)
         self.add("get String %d %s %s" % (h, hx(g), hx(k)),
                  lambda ev, root, h=h, g=g, k=k: [{"e": "get", "h": h, "g": opt(g), "k": opt(k), "rc": ev["rc"], "out": opt(ev.get("out"))}])
 
     def op_merge(self, h, a, b):
         self.add("merge %d %d %d" % (h, a, b), lambda ev, root, h=h, a=a, b=b: [{"e": "merge", "h": h, "a": a, "b": b, "rc": ev["rc"]}])
         self.live.add(h)
+        self.src[h] = list(self.src.get(a, ())) + list(self.src.get(b, ()))
 
     def op_write(self, h):
         # one time in three an earlier name is written again: the file then holds exactly the new content
@@ -291,6 +302,7 @@ class Mixed:
     def op_free(self, h):
         self.add("free %d" % h, lambda ev, root, h=h: [{"e": "free", "h": h, "ret_null": ev["ret_null"]}])
         self.live.discard(h)
+        self.src.pop(h, None)
 
     def build(self, nops):
         self.script.append("mkdir %s" % hx(self.R + "/out"))
